@@ -21,6 +21,8 @@ pub struct RewriteCase {
 
 const WS: &[&str] = &[
     " ", "  ", "\n", "\t", " \n  ", "\r\n", "\x0c", "\n\n\t ", " <!--c--> ", "<!--c--> ", " <!--c-->", " <!----> ", "\n<!-- a\nb -->\n",
+    // the whitespace run itself wrapped in a neutral span
+    "<span> </span>", "<span>\n</span>", " <span> </span>", "<span><span>\t</span></span>",
 ];
 const LAYOUT: &[&str] = &["\n", "\n  ", " ", "\n\t", "\r\n    ", " <!--x--> "];
 const BLOCK_TAGS: &[&str] = &["p", "div", "ul", "ol", "li", "blockquote", "dl", "dt", "dd", "h1", "h2", "h3", "h4", "h5", "h6"];
@@ -248,6 +250,16 @@ pub fn check_pair(case: &PairCase, _st: &mut Stats) -> Result<(), String> {
                 case.width, case.original, case.rewritten, x, y
             ));
         }
+        if case.cfg.deco == Deco::Rich {
+            let la = render_lines(&case.cfg, case.original.as_bytes(), case.width);
+            let lb = render_lines(&case.cfg, case.rewritten.as_bytes(), case.width);
+            if la != lb {
+                return Err(format!(
+                    "tagged lines depend on source formatting (w={})\n original ={:?}\n rewritten={:?}\n lines1={:?}\n lines2={:?}",
+                    case.width, case.original, case.rewritten, la.as_ok(), lb.as_ok()
+                ));
+            }
+        }
     }
     Ok(())
 }
@@ -291,7 +303,7 @@ pub fn property() -> Property {
     Property {
         id: "C13",
         level: "exploration",
-        rule: "table-free, pre-free grammar documents x source rewrite (every collapsible whitespace run replaced by one of 13 alternatives incl. tabs, CR LF, form feed, adjacent comments; layout whitespace/comments inserted after block tags; inline runs containing text wrapped in <span>) x width 1..=100 x plain / plain_no_decorate / rich / option mixes; oracle (metamorphic): when both renderings succeed they are byte-identical (strings, and tagged lines for rich). Non-trivial = >= 3 places changed and >= 2 output lines; distinct by the whole case.",
+        rule: "table-free, pre-free grammar documents x source rewrite (every collapsible whitespace run replaced by one of 17 alternatives incl. tabs, CR LF, form feed, adjacent comments, the run wrapped in <span>; layout whitespace/comments inserted after block tags; inline runs containing text wrapped in <span>) x width 1..=100 x plain / plain_no_decorate / rich / option mixes; oracle (metamorphic): when both renderings succeed they are byte-identical (strings, and tagged lines for rich). Non-trivial = >= 3 places changed and >= 2 output lines; distinct by the whole case.",
         assumptions: vec!["Ok-vs-TooNarrow disparity between the two sources is counted, not asserted (text-node splitting changes the minimum-width estimate)"],
         hang_is_violation: false,
         subs: vec![
